@@ -264,13 +264,16 @@ func (r *vRun) checkSide(step int, call vCall, side *vSide, tx gorp.Tx, full boo
 	subjects := append(append([]string{}, r.init.Known...), r.init.Ghost)
 	for _, s := range subjects {
 		known := inSet(r.init.Known, s)
+		// the root user and the never-registered subject cannot change in the model: their
+		// two-element lists are asked on init and commit steps only
+		fullS := full && ((known && s != "root") || call.A == "init" || call.A == "commit")
 		for _, a := range r.init.Actions {
 			var pc, xc []string
 			if known {
 				pc, xc = side.P[s][a], side.X[s][a]
 			}
 			for _, l := range r.lists {
-				if !full && len(l) == 2 {
+				if !fullS && len(l) == 2 {
 					continue
 				}
 				objs := make([]ontology.ID, len(l))
